@@ -587,6 +587,19 @@ image_ref_cases = st.fixed_dictionaries({"kind": st.just("image"),
                                                           st.lists(ref_op, min_size=2, max_size=8)).map(lambda t: t[0] + t[1])})
 
 
+# viewers that hold subset layers without (or before) the layer of the subset's dataset
+sub_op = st.one_of(st.tuples(st.just("rmgroup"), idx), st.tuples(st.just("rmgroup"), idx), st.tuples(st.just("group"), idx), st.tuples(st.just("add_subset"), idx, idx),
+                   st.tuples(st.just("add_data"), idx), st.tuples(st.just("remove_data"), idx), st.tuples(st.just("remove"), idx), st.tuples(st.just("remove_layer"), idx),
+                   st.tuples(st.just("append")), st.tuples(st.just("restore")),
+                   st.tuples(st.just("delay"), st.lists(st.one_of(st.tuples(st.just("rmgroup"), idx), st.tuples(st.just("group"), idx), st.tuples(st.just("remove"), idx)).map(list),
+                                                        min_size=1, max_size=2))).map(list)
+subset_layer_cases = st.fixed_dictionaries({"kind": st.sampled_from(["scatter", "histogram", "image", "profile"]),
+                                            "ops": st.tuples(st.sampled_from([[["append"], ["group", 0], ["add_subset", 0, 0]],
+                                                                              [["append"], ["append"], ["group", 1], ["add_subset", 0, 1]],
+                                                                              [["append"], ["group", 0], ["group", 1], ["add_subset", 1, 0], ["add_data", 0]]]),
+                                                             st.lists(sub_op, min_size=1, max_size=6)).map(lambda t: t[0] + t[1])})
+
+
 hop = st.one_of(st.tuples(st.sampled_from(["attach", "attach", "detach", "dattach", "ddetach", "dcremove", "dcappend", "flag", "addcomp", "rmcomp", "rename", "select"]), idx, idx)).map(list)
 helper_cases = st.fixed_dictionaries({
     "flags": st.fixed_dictionaries({"numeric": st.booleans(), "categorical": st.booleans(), "pixel_coord": st.booleans(), "world_coord": st.booleans(),
@@ -595,10 +608,11 @@ helper_cases = st.fixed_dictionaries({
 
 
 def checks(tier):
-    n = {"quick": (96, 12, 800, 128, 128), "thorough": (2560, 20, 48000, 3200, 3200)}.get(tier, (4, 6, 10, 4, 4))
+    n = {"quick": (96, 12, 800, 128, 96, 128), "thorough": (2560, 20, 48000, 3200, 3200, 3200)}.get(tier, (4, 6, 10, 4, 4, 4))
     return [
         Check("viewer_histories", fn_viewer, strategy=viewer_cases(n[1]), examples=n[0]),
         Check("combo_helpers", fn_helper, strategy=helper_cases, examples=n[2]),
         Check("state_roundtrip", fn_state_roundtrip, strategy=state_cases, examples=n[3]),
         Check("image_reference_histories", fn_viewer, strategy=image_ref_cases, examples=n[4]),
+        Check("subset_layer_histories", fn_viewer, strategy=subset_layer_cases, examples=n[5]),
     ]
